@@ -186,10 +186,13 @@ func (c *Ctx) Func(name string) *ssa.Function {
 // M resolves "pkg/stream/http", "connPool", "NewStream" (pointer or value receiver).
 func (c *Ctx) M(pkg, typ, meth string) *ssa.Function {
 	p := modPkg(pkg)
-	if fn := c.Func("(*" + p + "." + typ + ")." + meth); fn != nil {
+	if fn := c.Func("(*" + p + "." + typ + ")." + meth); fn != nil && fn.Synthetic == "" {
 		return fn
 	}
-	return c.Func("(" + p + "." + typ + ")." + meth)
+	if fn := c.Func("(" + p + "." + typ + ")." + meth); fn != nil {
+		return fn
+	}
+	return c.Func("(*" + p + "." + typ + ")." + meth)
 }
 
 // F resolves a package-level function.
